@@ -5,7 +5,7 @@ import re
 def unsafe_decode(string):
   try:
     return json.loads(string)
-  except ValueError as err:
+  except (ValueError, RecursionError) as err:
     raise gfapy.FormatError(
       "{} is not a valid JSON string\n".format(repr(string))+
       "error message: {}".format(str(err))) from err
